@@ -64,6 +64,43 @@ def check(ctx):
                      "the alternatives are not ordered rename ▷ rename_all ▷ default: %s" % [(c, render(v)) for c, v in paths]))
         else:
             r1.ok("rename ▷ rename_all ▷ default: %s" % " | ".join(sorted(set(render(t[1]) for t in table.values() if t))))
+    # the same table for enum variants (compute_variant_name): a variant-level rename is the literal, whatever the container's rename_all says
+    fnv = S.fn("NamingContext", "compute_variant_name")
+    if fnv is None:
+        r1.bad(V(r1.id, "<anchor>", "missing:compute_variant_name", "anchor not found"))
+    else:
+        from svlib import select_path
+        vparams = [x for p in fnv.sig["params"] if not p.get("self") for x in __import__("srclib").pat_bindings(p["pat"])]
+        vpaths = ev.fn_paths(fnv, None, lambda n: None)
+        vprob = []
+        if len(vparams) >= 3:
+            vname, vren, vall = vparams[0], vparams[1], vparams[2]
+            for rn in ("Some", "None"):
+                for al in ("Some", "None"):
+                    sel = select_path(vpaths, {vren: rn, vall: al})
+                    if sel is None:
+                        vprob.append("%s/%s:no-path" % (rn, al))
+                        continue
+                    txt = render(sel[1])
+                    mentions_name = vname in txt
+                    mentions_ren = ("‹%s›" % vren) in txt or "rename" in txt.lower().replace("rename_all", "").replace(vall.lower(), "")
+                    if rn == "Some":
+                        # the rename's payload as it is: no conversion call around it, the Rust name not involved
+                        if sel[1][0] not in ("var", "maphit", "opt") or mentions_name or "apply_to" in txt:
+                            vprob.append("%s/%s:%s" % (rn, al, txt[:50]))
+                    elif al == "Some":
+                        if not mentions_name or sel[1][0] == "var":
+                            vprob.append("%s/%s:%s" % (rn, al, txt[:50]))
+                    else:
+                        if not (sel[1][0] == "var" and mentions_name):
+                            vprob.append("%s/%s:%s" % (rn, al, txt[:50]))
+        else:
+            vprob.append("signature")
+        if vprob:
+            r1.bad(V(r1.id, "NamingContext::compute_variant_name", "variant-order:%s" % ",".join(vprob)[:160],
+                     "variant names are not decided as rename ▷ rename_all (variant rule) ▷ Rust name: %s" % [(c, render(v)) for c, v in vpaths][:6]))
+        else:
+            r1.ok("compute_variant_name: rename ▷ rename_all ▷ name")
     dfc = S.fn(None, "default_field_case")
     if dfc is not None:
         ps = ev.fn_paths(dfc)
@@ -218,6 +255,24 @@ def check(ctx):
     n_walks = check_meta_walks(ctx, r3, lambda fid: "::serde_parser::SerdeParser::" in fid, "#[serde(..)]")
     if not n_walks:
         r3.bad(V(r3.id, "<anchor>", "missing:serde-meta-walk", "anchor not found: no parse_nested_meta walk in SerdeParser"))
+    # the text of `rename = ".."` / `rename_all = ".."` is the wire name as it stands — serde accepts any string, the empty one included: between
+    # LitStr::value() and the parser's result nothing filters, trims or re-cases it
+    ALTER = {"filter", "trim", "trim_start", "trim_end", "trim_matches", "trim_start_matches", "trim_end_matches", "to_lowercase", "to_uppercase",
+             "to_ascii_lowercase", "to_ascii_uppercase", "replace", "replacen", "retain", "truncate", "split_whitespace"}
+    sv_fns = [k_ for k_ in P.fns if re.search(r"::serde_parser::SerdeParser::string_value($|::\{closure)", k_)]
+    if not sv_fns:
+        # the extraction may have been inlined or renamed: every body of the serde parser that calls LitStr::value stands for it
+        sv_fns = [k_ for k_ in P.fns if "::serde_parser::" in k_ and "{promoted#" not in k_ and any(c.name == "value" and "LitStr" in c.path for c in P.fns[k_].calls)]
+    for k_ in sorted(sv_fns):
+        g_ = P.fns[k_]
+        alt = sorted({c.name for c in g_.calls if c.bb in g_.reach_blocks and c.name in ALTER})
+        if alt:
+            r3.bad(V(r3.id, k_, "attribute-value-altered:%s" % ",".join(alt), "%s passes the attribute's string value through %s: `rename = \"\"` (or a value with blanks / capitals) "
+                     "is no longer the literal serde writes" % (short_path(k_), ", ".join(alt)), g_.file, g_.line))
+        else:
+            r3.ok("%s hands the literal's text on unaltered" % short_path(k_))
+    if not sv_fns:
+        r3.bad(V(r3.id, "<anchor>", "missing:serde-string-value", "no function of the serde parser reads a string literal's value"))
     r3.require_floor(7, "attribute recognisers + item walks")
     rules.append(r3)
 
